@@ -501,6 +501,58 @@ def run_io_types(rep, tier, rng):
             rep.property_failure(c, f"check_types: a rejected frame did not raise a schema error: {impl}")
         elif impl[0] == "schemaError" and impl[1] != ("SchemaErrors" if opts.get("lazy") else "SchemaError"):
             rep.property_failure(c, f"check_types: lazy={opts.get('lazy', False)} raised {impl[1]}")
+    run_types_nonframes(rep)
+
+
+def run_types_nonframes(rep):
+    """check_types with values that are not dataframes for a `DataFrame[M]` parameter / return that is not Optional:
+    the body must not run (inputs) and the value must not reach the caller (outputs)"""
+    import typing
+    import pandera as pa
+    from pandera import check_types
+    from pandera.typing import DataFrame
+    good, bad = frames()
+
+    class M(pa.DataFrameModel):
+        a: int = pa.Field(coerce=True)
+    values = {"None": None, "int": 5, "str": "x", "list": [1, 2], "dict": {"a": [1]}}
+    for vname, style, is_async, where in itertools.product(values, ("pos", "kw", "star", "kwonly"), (False, True),
+                                                          ("input", "output")):
+        c = {"dec": "check_types", "value": vname, "style": style, "async": is_async, "where": where}
+        ran = []
+        fr = {"good": good.copy(), "value": values[vname]}
+        src = ("@check_types\n" + ("async def" if is_async else "def") +
+               " g(df1: DataFrame[M], *more: DataFrame[M], df2: DataFrame[M]) -> DataFrame[M]:\n"
+               "    ran.append(1)\n"
+               "    return fr['value'] if where == 'output' else fr['good']\n")
+        ns = {"check_types": check_types, "typing": typing, "DataFrame": DataFrame, "M": M, "ran": ran, "fr": fr, "where": where}
+        exec(compile(src, "<c17-types>", "exec", dont_inherit=True), ns)  # noqa: S102
+        g = ns["g"]
+        v = values[vname] if where == "input" else good.copy()
+        with warnings.catch_warnings():
+            warnings.simplefilter("ignore")
+            try:
+                if style == "pos":
+                    r = run_sync(g(v, df2=good.copy()))
+                elif style == "kw":
+                    r = run_sync(g(df1=v, df2=good.copy()))
+                elif style == "star":
+                    r = run_sync(g(good.copy(), v, df2=good.copy()))
+                else:
+                    r = run_sync(g(good.copy(), df2=v))
+                impl = ("ret", type(r).__name__)
+            except Exception as e:  # noqa: BLE001
+                impl = ("raise", type(e).__name__)
+        rep.case(c)
+        rep.evaluations += 1
+        rep.count(f"check_types-nonframe:{where}:{vname}:{impl[0]}")
+        region = "K_C17_builtinValuesSkipped" if vname != "None" else None
+        if where == "input" and ran:
+            rep.property_failure(c, f"check_types: the body ran although a {vname} value was passed for a parameter annotated "
+                                    f"DataFrame[M] ({style})", region=region)
+        elif where == "output" and impl[0] == "ret":
+            rep.property_failure(c, f"check_types: a {vname} value returned under `-> DataFrame[M]` reached the caller "
+                                    "unvalidated", region=region)
 
 
 def designation_equivalence(rep, cases):
